@@ -288,7 +288,15 @@ void vk_run_case(vk::Choice& c) {
   static bool sorted_once = false;
   if (!sorted_once) { sorted_once = true; std::sort(shapes.begin(), shapes.end(), [](const ShapeDesc* a, const ShapeDesc* b) { return a->id < b->id; }); }
   if (shapes.empty()) { cx.fail("*", "no_shapes", "no shapes registered"); return; }
-  const ShapeDesc* chosen = shapes[c.upto((uint32_t)shapes.size())];
+  // --require-kind=N: only shapes containing a node of that kind (C18 runs the shapes with an any_sender_of node)
+  static std::vector<const ShapeDesc*> subset; static bool subset_done = false;
+  if (!subset_done) {
+    subset_done = true;
+    long rk = cx.arg("require-kind") == "any_sender_of" ? (long)K_ANY : -1;
+    for (auto* s : shapes) { bool has = rk < 0; for (int i = 0; i < s->nnodes && !has; ++i) if ((long)s->nodes[i].kind == rk) has = true; if (has) subset.push_back(s); }
+    if (subset.empty()) subset = shapes;
+  }
+  const ShapeDesc* chosen = subset[c.upto((uint32_t)subset.size())];
   if (long forced = cx.argi("shape", -1); forced >= 0) {   // regression replays pin the shape by id
     chosen = nullptr;
     for (auto* s : shapes) if (s->id == forced) chosen = s;
